@@ -63,9 +63,13 @@ func main() {
 	if f.Replay != "" {
 		fmt.Println("replay: re-running the deterministic enumeration")
 	}
-	if f.Engine == "abandon" {
+	if f.Engine == "abandon" || f.Engine == "restart" {
 		logrus.SetOutput(io.Discard)
-		engineAbandon(f, res)
+		if f.Engine == "abandon" {
+			engineAbandon(f, res)
+		} else {
+			engineRestart(f, res)
+		}
 		if f.Replay != "" {
 			for _, x := range res.Findings {
 				fmt.Printf("FINDING %s: %s\n", x.Signature, x.Message)
